@@ -12,7 +12,7 @@
 use crate::expr::Kind::*;
 use crate::expr::*;
 
-fn js(s: &str) -> String {
+pub fn js(s: &str) -> String {
     let mut t = String::new();
     crate::rjson::write_json_string_utf8(s, &mut t);
     t
@@ -53,6 +53,8 @@ pub fn regex_wide() -> Vec<String> {
         "ab{2}", "a{1,2}b", "b{0}", "[ab]{2,}", "a.c", "a.b", "a\\.b", "a?b", "a|b", "^ab$", "\\w+", "\\bA", "(?:ab)+", "\\(a\\)", "\\[a\\]", "a\\+", "a\\*", "\\^a", "a\\$", "a\\|b", "\\\\", "}", "{", "a{", "a{2", "a}", "]", "x{64}y", "^x+[yz]$", "(a)(a)",
         // groups that take no part in the match (alternation, optional, repeated zero times): group N
         // is capture group N, not the N-th group that matched
+        // word boundaries and look-around at the edges of the pattern: the characters around the match count
+        "(a+)\\B", "\\Ba(b)", "\\B(b)", "(a)\\b", "\\b(b)", "(l+)\\B", "\\B(o)\\b", "(a)$", "^(b)",
         "(a)|(b)", "(z)?(a)(b)?", "(a)|(b)|(ab)", "(x)*(a)(y)?(b)", "(?:(a)|(b))+", "([0-9]+)-(y)?(x)", "(b)?(a)",
         "(?P<n>a)b", "a$|b", "\\d{2}", "[[:alpha:]]+", "\\p{L}+", "(?s).", "(?m)^b", "a,b", " ", "\\t", "\\n",
     ] {
